@@ -88,6 +88,7 @@ def check_sequence(case):
     """several headers encoded one after the other in one process; a step may re-use the
     previous ContentHeader / Properties object after re-assigning every attribute"""
     obj = None
+    prev = None
     for step in case['steps']:
         if 'refused' in step:
             # a header the encoder refuses; what matters is the steps after it
@@ -95,6 +96,23 @@ def check_sequence(case):
                 frame.marshal(make_header({'headers': step['refused']}, 1), 1)
             except Exception:
                 pass
+            continue
+        if step.get('nested') and obj is not None and prev is not None:
+            # change something *below* the top level of the headers table in place,
+            # re-assign nothing, and encode the same object again
+            import copy
+            state = dict(prev)
+            hdrs = obj.properties.headers
+            target = _deepest(hdrs) if isinstance(hdrs, dict) else None
+            if target is not None:
+                if isinstance(target, dict):
+                    target['nested-change'] = step['nested']
+                elif isinstance(target, list):
+                    target.append(step['nested'])
+                else:
+                    target.extend(b'+')
+                state['props'] = dict(prev['props'], headers=copy.deepcopy(hdrs))
+                check(state, obj)
             continue
         if step.get('reuse') and obj is not None:
             obj.body_size = step['body_size']
@@ -104,6 +122,18 @@ def check_sequence(case):
         else:
             obj = call('construct', make_header, step['props'], step['body_size'])
         check(step, obj)
+        prev = step
+
+
+def _deepest(v):
+    """a mutable container strictly below the top level of a headers table (or None)"""
+    best = None
+    for x in (v.values() if isinstance(v, dict) else v):
+        if isinstance(x, (dict, list)):
+            best = _deepest(x) or x
+        elif isinstance(x, bytearray) and best is None:
+            best = x
+    return best
 
 
 def sequence_cases(tier):
@@ -124,7 +154,14 @@ def sequence_cases(tier):
         steps_ = list(case['steps'])
         if bad is not None:
             steps_.insert(at % (len(steps_) + 1), {'refused': bad})
-        return {'steps': steps_}
+        # after a step whose headers hold a nested container: mutate it in place
+        out = []
+        for s in steps_:
+            out.append(s)
+            h = s.get('props', {}).get('headers') if 'props' in s else None
+            if isinstance(h, dict) and _deepest(h) is not None:
+                out.append({'nested': at % 7 + 1})
+        return {'steps': out}
     plain = st.builds(steps, twins,
                       st.lists(S.header_cases(), min_size=2, max_size=4),
                       st.lists(st.integers(0, 2), min_size=1, max_size=4),
@@ -143,7 +180,7 @@ def _unused_sequence_cases():
 
 
 def sequence_nontrivial(case):
-    real = [s for s in case['steps'] if 'refused' not in s]
+    real = [s for s in case['steps'] if 'refused' not in s and 'nested' not in s]
     return len(real) < len(case['steps']) or \
         any(s.get('reuse') for s in real[1:]) or \
         sum(1 for s in real if 'timestamp' in s['props']) >= 2
@@ -235,6 +272,9 @@ COMPONENTS = [
               classes=lambda c: ['steps=%d' % len(c['steps']),
                                  'reuse' if any(s.get('reuse') for s in c['steps'][1:])
                                  else 'fresh-objects',
+                                 'nested-inplace' if any('nested' in s
+                                                         for s in c['steps'])
+                                 else 'no-nested-change',
                                  'with-refused-step' if any('refused' in s
                                                             for s in c['steps'])
                                  else 'all-valid'],
